@@ -43,11 +43,15 @@ class SimLoop(base_events.BaseEventLoop):
 
     # ---- activation
     def install(self) -> "SimLoop":
+        import threading
+
+        self._thread_id = threading.get_ident()  # is_running() -> True: eager tasks start eagerly
         asyncio.set_event_loop(self)
         events._set_running_loop(self)
         return self
 
     def uninstall(self) -> None:
+        self._thread_id = None
         events._set_running_loop(None)
         asyncio.set_event_loop(None)
 
